@@ -113,7 +113,10 @@ def cases(shard, tier):
                            ('name_space_version', [2 ** 31]), ('dimension', [[-1], [2 ** 30]]),
                            ('element_limit', [[2 ** 30]]), ('origin-ref-origin', [2 ** 30, -1]),
                            ('origin-ref-object', [2 ** 30, -1]), ('encrypted', [2, -1]), ('copy-256', [256]),
-                           ('sample_count', [2 ** 31, -2 ** 31 - 1]), ('status', [2, -1])):
+                           ('sample_count', [2 ** 31, -2 ** 31 - 1]), ('status', [2, -1]),
+                           # integer lists (written as SLONG) with ONE value out of range, at several list lengths
+                           ('axis-coordinates', [[0] * k + [2 ** 31] for k in (0, 1, 15, 16, 199)] + [[-2 ** 31 - 1] + [5] * 19]),
+                           ('parameter-values', [[1] * k + [2 ** 31] for k in (0, 15, 16, 127)])):
             for v in vals:
                 yield {'family': fam, 'ctx': ctx, 'what': what, 'v': v, 'must': True}
     elif fam == 'structure':
@@ -241,6 +244,10 @@ def make_spec(c):
             sp['ops'].append(S.op_add('calibration_measurement', 'CM', 'CMEAS', sample_count=v))
         elif what == 'status':
             sp['ops'].append(S.op_add('tool', 'T', 'TOOL', status=v))
+        elif what == 'axis-coordinates':
+            sp['ops'].append(S.op_add('axis', 'AXL', 'AXIS-WITH-LIST', coordinates=v))
+        elif what == 'parameter-values':
+            sp['ops'].append(S.op_add('parameter', 'PAL', 'PARAM-WITH-LIST', values=v))
         return sp
     if fam == 'structure':
         sp = base(ctx)
